@@ -19,12 +19,13 @@ static size_t pat_counter;
 static void check_contents(void);
 static size_t first_size;
 static int sparse;      /* obs=sparse: used/free are queried only on `observe` */
+static int quiet;       /* phys=quiet: no page dumps (pages of many megabytes) */
 static int libc_pool;   /* built by cc_dynamic_pool_new: pages come from libc and are not pre-filled */
 
 static void *fill_malloc(size_t n) { void *p = conf_malloc(n); if (p) memset(p, FRESH, n); return p; }
 static void *fill_calloc(size_t a, size_t b) { return conf_calloc(a, b); }
 
-static void shim_reset(void) { pool = NULL; nptrs = nshadow = 0; pat_counter = 0; libc_pool = 0; sparse = 0; }
+static void shim_reset(void) { pool = NULL; nptrs = nshadow = 0; pat_counter = 0; libc_pool = 0; sparse = 0; quiet = 0; }
 
 /* pages oldest first */
 static int page_list(PageInfo **out) {
@@ -62,10 +63,17 @@ static void phys(void) {
       pool->alignment_boundary, pool->top_page_size, (size_t)(pool->free_ptr - pool->low_ptr),
       (size_t)(pool->high_ptr - pool->low_ptr));
     O_LIST("sizes"); for (int i = 0; i < n; i++) o_item(pg[i]->size); o_end();
-    if (!libc_pool)
+    if (!libc_pool && !quiet)
         for (int i = 0; i < n; i++) {
             o(" "); char nm[24]; snprintf(nm, sizeof nm, "pg%d", i);
-            O_LIST(nm); for (size_t j = 0; j < pg[i]->size; j++) o_item(payload(pg[i])[j]); o_end();
+            if (pg[i]->size > 4096) {   /* large page: FNV-1a 64 of the list text instead of the dump */
+                unsigned long long h = 14695981039346656037ULL; char t[8];
+                for (size_t j = 0; j < pg[i]->size; j++) {
+                    int k = snprintf(t, sizeof t, j ? ",%u" : "%u", (unsigned)payload(pg[i])[j]);
+                    for (int q = 0; q < k; q++) { h ^= (unsigned char)t[q]; h *= 1099511628211ULL; }
+                }
+                o("%s=#%llu", nm, h);
+            } else { O_LIST(nm); for (size_t j = 0; j < pg[i]->size; j++) o_item(payload(pg[i])[j]); o_end(); }
         }
     /* L2 walkers */
     if (pool->low_ptr != pool->page + sizeof(PageInfo)) o(" WALK=low-ptr-not-top-payload");
@@ -120,6 +128,7 @@ static void do_op(Cmd *c) {
         shim_reset();
         size_t size = kv_u64(c, "size", 16);
         int sp = !strcmp(kv_str(c, "obs", "full"), "sparse");
+        int qt = !strcmp(kv_str(c, "phys", "full"), "quiet");
         enum cc_stat st;
         if (is_op(c, "new")) {
             CC_DynamicPoolConf conf; cc_dynamic_pool_conf_init(&conf);
@@ -131,7 +140,7 @@ static void do_op(Cmd *c) {
             st = cc_dynamic_pool_new_conf(size, &conf, &pool);
         } else { libc_pool = 1; st = cc_dynamic_pool_new(size, &pool); }
         if (st != CC_OK) pool = NULL;
-        first_size = size; sparse = sp;
+        first_size = size; sparse = sp; quiet = qt;
         o_stat(st);
     } else if (!pool) { o("st=- nosession"); o_sep(); o("-"); return;
     } else if (is_op(c, "observe")) {
